@@ -46,7 +46,22 @@ CmpFails(e) ==
        { <<"CmpRev_" \o o \o "_" \o rcls, e.rev[o] = CmpExpected(rcls)[o]>> : o \in ops } \cup
        { <<"CmpEqSymmetric", e.res.eq = e.rev.eq>> })
 
-Fails(e) == CASE e.ev = "to" -> ToFails(e) [] e.ev = "cmp" -> CmpFails(e)
+\* chain: one object converted IN PLACE along a path of units u[1] -> u[2] -> ... ; after every hop its public value / unit, a COPY
+\* conversion of it back to the first unit, and its comparison with a fresh object of the original value are recorded
+ChainFails(e) ==
+  UNION { LET h == e.hops[j]  exp == Conv(e.v, e.kind, e.u0, h.unit) IN
+          IF ~h.ok THEN {"ChainRaised_" \o h.err \o "@" \o ToString(j)}
+          ELSE IF ~(RIsNum(h.val) /\ RIsNum(h.back)) THEN {"ChainFinite@" \o ToString(j)}
+          ELSE Failing({
+            <<"ChainValue@" \o ToString(j), CloseS(h.val, exp, "1e-12", RAbs(exp))>>,
+            <<"ChainUnitLabel@" \o ToString(j), h.unit_seen = h.unit>>,
+            <<"ChainBackToFirstUnit@" \o ToString(j), CloseS(h.back, e.v, "1e-12", RAbs(e.v))>>,
+            \* (comparisons are judged between DIFFERENT units only: in the same unit the comparison is exact by design)
+            <<"ChainEqualsFreshOriginal@" \o ToString(j), h.unit # e.u0 => (h.eq_fresh /\ h.fresh_eq)>>,
+            <<"ChainNotLessNotGreater@" \o ToString(j), h.unit # e.u0 => (~h.lt_fresh /\ ~h.gt_fresh)>> })
+        : j \in 1..Len(e.hops) }
+
+Fails(e) == CASE e.ev = "to" -> ToFails(e) [] e.ev = "cmp" -> CmpFails(e) [] e.ev = "chain" -> ChainFails(e)
 
 Init == tid \in 1..Len(Traces)
 Next == /\ tid > 0
